@@ -178,6 +178,32 @@ def run_case(case):
                     bad(method, "scalar_given_vector_x", "scalar_vecx", {"got": got, "expected": e1, "given": gs[i]})
             except Exception as e:
                 bad(method, "exception", "scalar_vecx", {"type": type(e).__name__, "msg": str(e)[:200]})
+    # integer-valued conditioning values (int arrays / python ints) are values like any other
+    gi = np.array([0, 1, 2, 3, 6])
+    refs_i = [zoo.make(fam, theta(float(g))) for g in gi]
+    for method in ("pdf", "cdf", "icdf"):
+        arg = ps if method == "icdf" else xs
+        e_i = np.array([float(getattr(r, method)(a)) for r, a in zip(refs_i, arg)])
+        try:
+            count["calls"] += 2
+            got = getattr(cond, method)(arg, gi)
+            if not close(got, e_i):
+                bad(method, "integer_given_vs_template", "int_vector", {"got": got, "expected": e_i, "given": gi})
+            got = getattr(cond, method)(float(arg[2]), int(gi[2]))
+            if not close(np.asarray(got, dtype=float).reshape(-1), e_i[2:3]):
+                bad(method, "integer_given_vs_template", "int_scalar", {"got": got, "expected": e_i[2], "given": int(gi[2])})
+        except Exception as e:
+            bad(method, "exception", "int_vector", {"type": type(e).__name__, "msg": str(e)[:200]})
+    try:
+        count["calls"] += 1
+        got = np.asarray(cond.draw_sample(1, gi, random_state=99), dtype=float)
+        th_i = [theta(float(g)) for g in gi]
+        kw_i = {n: np.array([t[n] for t in th_i]) for n in th_i[0]}
+        e_s = np.asarray(zoo.FAMILIES[fam][0]().draw_sample(1, **kw_i, random_state=99), dtype=float)
+        if not close(got, e_s, 1e-12):
+            bad("draw_sample", "integer_given_vs_template", "int_vector", {"got": got, "expected": e_s, "given": gi})
+    except Exception as e:
+        bad("draw_sample", "exception", "int_vector", {"type": type(e).__name__, "msg": str(e)[:200]})
     # sampling: equals the template's draw_sample with explicit parameter values under the same seed
     seed = 1234
     try:
